@@ -11,7 +11,7 @@ from vpkit import common, zoo
 
 ID = "C20"
 N = {"quick": 300, "thorough": 10000}
-BUDGET = {"quick": 240.0, "thorough": 1200.0}
+BUDGET = {"quick": 240.0, "thorough": 700.0}
 RULE = ("case = (star forest with 1-4 parents, 1-8 intervals, skewed and balanced mutation loads 0..5000, "
         "mutation rate 1e-12..1, max_iterations 1/2/5/25, max_shape 2..1000); distinct by (topology+"
         "mutation hash, options); non-trivial = >=2 edges per parent; every parent compared")
